@@ -202,6 +202,46 @@ fn error_propagation_table(rep: &mut Report, args: &Args) {
     for text in ["map(&a | b, recs)", "map(&a || b, recs)", "sort_by(recs, &a | b)", "max_by(recs, &(a | b))", "map(&a.b | [0], recs)", "map(&!a, recs)", "sort_by(recs, &b || `0`)"] {
         check_succeeds(rep, text, &json!({"recs": [{"a": {"b": 2}, "b": 1}, {"a": {"b": 1}, "b": 2}]}), "operator-body-in-reference");
     }
+    // (a'') every member of a multi-select hash is evaluated, also one whose key is written again later;
+    // the error of a long map is that of the FIRST failing element; `@` inside a nested call behind a pipe is
+    // the piped value
+    for (body, class) in bad_calls.iter() {
+        let body = body.replace("@", "name");
+        for text in [format!("{{a: {}, a: n}}", body), format!("{{a: n, b: {}, b: n, a: name}}", body), format!("{{\"a\": {}, a: `1`}}", body)] {
+            check_fails(rep, &text, &json!({"name": "bob", "n": -3}), class, "multi-select-hash/repeated-key");
+        }
+    }
+    {
+        let mut items: Vec<Value> = (0..8192).map(|i| json!({"v": i})).collect();
+        items[4095] = json!({"v": "n/a"});
+        for it in items.iter_mut().skip(4096) {
+            *it = json!({"v": true});
+        }
+        let big = json!({"items": items});
+        for text in ["map(&abs(v), items)", "items[*].abs(v)", "sort_by(items, &abs(v))"] {
+            rep.evaluations += 1;
+            match guarded(|| jmespath::compile(text).and_then(|e| e.search(rcvar_of(&big)))) {
+                Ok(Err(e)) if err_class(&e) == "type" && e.reason.to_string().contains("string") && !e.reason.to_string().contains("boolean") => rep.count("first_failing_element_reported"),
+                other => rep.violation(
+                    "C06/error-is-not-that-of-the-first-ill-typed-element",
+                    json!({"expression": text, "elements": 8192, "first_ill_typed": "element 4095 (a string); elements 4096.. are booleans", "got": format!("{:?}", other.map(|r| r.map(|v| v.to_string().len()).map_err(|e| e.to_string())))}),
+                ),
+            }
+        }
+    }
+    for (text, want) in [
+        ("name | ends_with(@, reverse(@))", json!(true)), ("name | contains(@, to_string(@))", json!(true)), ("name | join('-', [@, reverse(@)])", json!("bob-bob")),
+        ("n | [abs(@), abs(abs(@))]", json!([3, 3])), ("name | starts_with(@, not_null(nope, @))", json!(true)), ("name | length(to_array(@))", json!(1)),
+    ] {
+        rep.evaluations += 1;
+        match guarded(|| jmespath::compile(text).and_then(|e| e.search(rcvar_of(&json!({"name": "bob", "n": -3}))))) {
+            Ok(Ok(v)) if value_of(&v).map_or(false, |g| refimpl::json::val_eq(&g, &want, 0.0)) => rep.count("nested_current_node_behind_pipe_ok"),
+            other => rep.violation(
+                "C06/well-typed-call-rejected/nested-current-node-behind-a-pipe",
+                json!({"expression": text, "expected": want, "got": format!("{:?}", other.map(|r| r.map(|v| v.to_string()).map_err(|e| e.to_string())))}),
+            ),
+        }
+    }
     // (b) operands
     let lefts = ["name", "`null`", "`1`", "`false`", "`[]`", "'s'", "missing"];
     let truthy = [true, false, true, false, false, true, false];
